@@ -588,7 +588,8 @@ func c11Run(c *Ctx) {
 		arrs = append(arrs, vArr(vInt(1), vInt(2), vInt(3)), vArr(vStr("a"), vStr("b"), vStr("c"), vStr("d")), vArr(vArr(vInt(1)), vArr(vInt(1)), vInt(1)))
 	}
 	ints := []Val{vInt(math.MinInt64), vInt(-10), vInt(-1), vInt(0), vInt(1), vInt(9), vInt(10), vInt(math.MaxInt64), vInt(123)}
-	floats := []Val{vFloat(-1.5), vFloat(-0.5), vFloat(0), vFloat(0.4), vFloat(0.5), vFloat(1.5), vFloat(2.5), vFloat(-2.5), vFloat(3.99)}
+	floats := []Val{vFloat(-1.5), vFloat(-0.5), vFloat(0), vFloat(0.4), vFloat(0.5), vFloat(1.5), vFloat(2.5), vFloat(-2.5), vFloat(3.99),
+		vFloat(1e19), vFloat(-1e19), vFloat(9.3e18)}
 	bools := []Val{vBool(true), vBool(false)}
 	groups := []struct {
 		kind  string
